@@ -175,6 +175,29 @@ def _split_repr(r):
     return stripped, exp10
 
 
+def _round_sig_half_up(x, n):
+    """Exact value of the double x rounded to n significant decimal digits, ties away from zero (what Rust's shortest
+    float formatting does when two n-digit candidates are equally close). Returns (digits, exp10)."""
+    from decimal import Decimal, ROUND_HALF_UP
+    d = Decimal(x)           # exact
+    e = d.adjusted()         # exponent of the leading digit
+    q = Decimal(1).scaleb(e - n + 1)
+    r = d.quantize(q, rounding=ROUND_HALF_UP)
+    sign, digits, exp = r.as_tuple()
+    ds = "".join(str(c) for c in digits)
+    return ds, len(ds) + exp
+
+
+def _shortest(a, roundtrips):
+    """Shortest digit string that round-trips (per `roundtrips`), closest to a, ties half-up."""
+    for n in range(1, 18):
+        ds, e = _round_sig_half_up(a, n)
+        cand = float("0.%se%d" % (ds, e)) if ds.strip("0") else 0.0
+        if roundtrips(cand):
+            return ds, e
+    return _split_repr(repr(a))
+
+
 def fmt_f64(x):
     """Rust's `{}` for f64: shortest round-trip digits, never an exponent."""
     if x != x:
@@ -186,7 +209,8 @@ def fmt_f64(x):
     if x == 0.0:
         return "-0" if math.copysign(1.0, x) < 0 else "0"
     sign = "-" if x < 0 else ""
-    d, e = _split_repr(repr(abs(x)))
+    a = abs(x)
+    d, e = _shortest(a, lambda c: c == a)
     return sign + _expand(d, e)
 
 
@@ -201,12 +225,7 @@ def fmt_f32(x):
         return "-0" if math.copysign(1.0, x) < 0 else "0"
     sign = "-" if x < 0 else ""
     a = abs(x)
-    for p in range(1, 18):
-        s = "%.*e" % (p - 1, a)
-        if f32(float(s)) == a:
-            d, e = _split_repr(s)
-            return sign + _expand(d, e)
-    d, e = _split_repr(repr(a))
+    d, e = _shortest(a, lambda c: f32(c) == a)
     return sign + _expand(d, e)
 
 
